@@ -26,18 +26,21 @@ LimInside(r, z) == PolyInside(r, z) /\ ~(2 * r > 9 /\ 2 * z > 1)
 Angles == << <<1, 0, 1>>, <<3, 4, 5>>, <<0, 1, 1>>, <<-4, 3, 5>>, <<-1, 0, 1>>, <<5, -12, 13>> >>      \* <<c, s, h>>: cos = c/h, sin = s/h
 
 VARIABLES neg, A, B, r, z, ang,
+          Z0,      \* height of the magnetic axis (0: up-down symmetric grid; 1: the axis sits one node above the midplane)
+          C,       \* cross term: psi = s (A x^2 + B y^2 + C x y), x = r - R0, y = z - Z0 (tilted flux surfaces; 4 A B > C^2)
           off      \* the reported axis flux is s * off / 2: with off = 1 the gridded psi dips (marginally) beyond the reported
                    \* axis value around the magnetic axis, as it does in real EFIT output
-vars == <<neg, A, B, r, z, ang, off>>
+vars == <<neg, A, B, r, z, ang, off, Z0, C>>
 Init == neg \in Negs /\ A \in (IF Deep THEN {1, 2, 3, 5} ELSE {1, 2}) /\ B \in (IF Deep THEN {1, 2, 3, 7} ELSE {1, 3}) /\ r \in Rs /\ z \in Zc /\ ang \in 1..Len(Angles) /\ off \in {0, 1}
         /\ (off = 1 => ang = 1)
+        /\ Z0 \in {0, 1} /\ C \in {0, 1} /\ (off = 1 => C = 0)
 Next == UNCHANGED vars
 Spec == Init /\ [][Next]_vars
 
 Sgn == IF neg THEN -1 ELSE 1
-Psi(rr, zz) == Sgn * (A * (rr - R0) * (rr - R0) + B * zz * zz)
+Psi(rr, zz) == Sgn * (A * (rr - R0) * (rr - R0) + B * (zz - Z0) * (zz - Z0) + C * (rr - R0) * (zz - Z0))
 PsiAxis == <<Sgn * off, 2>>
-PsiLcfs == Sgn * (A * 4 + B)                \* the surface through (R0 + 2, 1)
+PsiLcfs == Sgn * (A * 4 + B + 2 * C)        \* the surface through (R0 + 2, Z0 + 1)
 \* normalised flux (psi - psi_axis) / (psi_lcfs - psi_axis), clamped at 0 (everywhere, also between the nodes: the
 \* harness evaluates the non-negativity at quarter points of the cells around each node)
 PsiN == LET q == RDiv(RSub(R(Psi(r, z)), PsiAxis), RSub(R(PsiLcfs), PsiAxis)) IN IF q[1] < 0 THEN R(0) ELSE q
@@ -48,8 +51,8 @@ Outside == <<-7, 1>>
 Map2D == IF Inside THEN Profile ELSE Outside
 
 \* gradient of psi and the un-normalised in-plane directions (x r): B_r = -psi_z / r, B_z = psi_r / r
-PsiR == 2 * Sgn * A * (r - R0)
-PsiZ == 2 * Sgn * B * z
+PsiR == Sgn * (2 * A * (r - R0) + C * (z - Z0))
+PsiZ == Sgn * (2 * B * (z - Z0) + C * (r - R0))
 PolDir == <<-PsiZ, 0, PsiR>>                \* along the in-plane field
 NrmDir == <<-PsiR, 0, -PsiZ>>               \* poloidal x toroidal
 Degenerate == PsiR = 0 /\ PsiZ = 0          \* magnetic axis: no in-plane field
@@ -65,9 +68,10 @@ NormalIsPolCrossTor == NrmDir = <<-PolDir[3], 0, PolDir[1]>>
 FieldHasNoNormalComponent == (-PsiZ) * NrmDir[1] + PsiR * NrmDir[3] = 0
 SameLength == PolDir[1] * PolDir[1] + PolDir[3] * PolDir[3] = NrmDir[1] * NrmDir[1] + NrmDir[3] * NrmDir[3]
 \* the mapped function is constant on flux surfaces: nodes mirrored in z have the same value
-UpDownSymmetric == Psi(r, z) = Psi(r, -z)
+UpDownSymmetric == (Z0 = 0 /\ C = 0) => Psi(r, z) = Psi(r, -z)
+PositiveDefinite == 4 * A * B > C * C
 
-EmitCase == PrintT(ToJson([off |-> off, neg |-> neg, inside_limiter |-> LimInside(r, z), A |-> A, B |-> B, r |-> r, z |-> z, angle |-> Angles[ang], psin |-> PsiN, inside |-> Inside,
+EmitCase == PrintT(ToJson([Z0 |-> Z0, C |-> C, off |-> off, neg |-> neg, inside_limiter |-> LimInside(r, z), A |-> A, B |-> B, r |-> r, z |-> z, angle |-> Angles[ang], psin |-> PsiN, inside |-> Inside,
                            map2d |-> Map2D, psi_axis |-> PsiAxis, psi_lcfs |-> PsiLcfs, grad |-> <<PsiR, PsiZ>>,
                            pol |-> PolDir, nrm |-> NrmDir, degenerate |-> Degenerate]))
 =============================================================================
